@@ -57,11 +57,20 @@ route("Davenport().Q", UP, "c0s", "B", "free", 1e-7)(lambda a, m, d: F.Davenport
 route("Davenport.estimate", UP, "c0s", "B", "free", 1e-7)(lambda a, m, d: F.Davenport(magnetic_dip=dipdeg(d)).estimate(a, m))
 route("QUEST().Q", UP, "c0s", "B", "closed", 1e-7)(lambda a, m, d: F.QUEST(a, m, magnetic_dip=dipdeg(d)).Q)
 route("QUEST.estimate", UP, "c0s", "B", "closed", 1e-7)(lambda a, m, d: F.QUEST(magnetic_dip=dipdeg(d)).estimate(a, m))
+# non-default weights (not normalised, unequal): with consistent data the optimum does not depend on them
+route("QUEST(weights=[1,1]).Q", UP, "c0s", "B", "closed", 1e-7)(lambda a, m, d: F.QUEST(a, m, magnetic_dip=dipdeg(d), weights=np.ones(2)).Q)
+route("QUEST(weights=[3,5]).estimate", UP, "c0s", "B", "closed", 1e-7)(lambda a, m, d: F.QUEST(magnetic_dip=dipdeg(d), weights=np.array([3.0, 5.0])).estimate(a, m))
+route("QUEST(weights=[0.7,0.3]).Q", UP, "c0s", "B", "closed", 1e-7)(lambda a, m, d: F.QUEST(a, m, magnetic_dip=dipdeg(d), weights=np.array([0.7, 0.3])).Q)
+route("Davenport(weights=[2,1]).Q", UP, "c0s", "B", "free", 1e-7)(lambda a, m, d: F.Davenport(a, m, magnetic_dip=dipdeg(d), weights=np.array([2.0, 1.0])).Q)
+route("Davenport(weights=[0.2,0.8]).estimate", UP, "c0s", "B", "free", 1e-7)(lambda a, m, d: F.Davenport(magnetic_dip=dipdeg(d), weights=np.array([0.2, 0.8])).estimate(a, m))
 # ---- FLAE, three modes
 for _m, _cls in (("eig", "free"), ("symbolic", "closed"), ("newton", "closed")):
     route("FLAE(method=%s).Q" % _m, UP, "c0-s", "B", _cls, 1e-7)(lambda a, m, d, _m=_m: F.FLAE(np.array([a, a]), np.array([m, m]), method=_m, magnetic_dip=dipdeg(d)).Q[1])
     route("FLAE(1-D sample, method=%s).Q" % _m, UP, "c0-s", "B", _cls, 1e-7)(lambda a, m, d, _m=_m: F.FLAE(a, m, method=_m, magnetic_dip=dipdeg(d)).Q)
     route("FLAE.estimate(method=%s)" % _m, UP, "c0-s", "B", _cls, 1e-7)(lambda a, m, d, _m=_m: F.FLAE(magnetic_dip=dipdeg(d)).estimate(a, m, method=_m))
+    if _m != "symbolic":
+        route("FLAE(weights=[2,1], method=%s).Q" % _m, UP, "c0-s", "B", _cls, 1e-7)(lambda a, m, d, _m=_m: F.FLAE(a, m, method=_m, magnetic_dip=dipdeg(d), weights=np.array([2.0, 1.0])).Q)
+        route("FLAE(weights=[1,3]).estimate(method=%s)" % _m, UP, "c0-s", "B", _cls, 1e-7)(lambda a, m, d, _m=_m: F.FLAE(magnetic_dip=dipdeg(d), weights=np.array([1.0, 3.0])).estimate(a, m, method=_m))
 # ---- OLEQ
 route("OLEQ(NED).Q", DN, "s0c", "B", "closed", 1e-6)(lambda a, m, d: F.OLEQ(a, m, magnetic_ref=float(dipdeg(d)), frame="NED").Q)
 route("OLEQ(ENU).Q", UP, "0c-s", "B", "closed", 1e-6)(lambda a, m, d: F.OLEQ(a, m, magnetic_ref=float(dipdeg(d)), frame="ENU").Q)
